@@ -326,6 +326,11 @@ fn health_check(addr: SocketAddr, conn: &mut Option<Conn>, fresh: bool) -> Resul
     Err("unreachable".into())
 }
 
+pub fn health_check_fresh(addr: SocketAddr) -> Result<(), String> {
+    let mut c = None;
+    health_check(addr, &mut c, true)
+}
+
 pub struct Work {
     pub truncation_templates: usize,
     pub random_faults: usize,
@@ -368,9 +373,37 @@ pub fn run(seed: u64, w: &Work) -> Report {
             faults.push(f);
         }
         rng0.shuffle(&mut faults);
+        drive(&mut rep, srv.addr, faults, w.threads, mode_tag, seed);
+        h2_faults(&mut rep, srv.addr, if w.random_faults > 5000 { 120 } else { 24 }, seed, mode_tag, 4096);
+        // the server future must still be pending
+        if let (Some(rt), Some(server)) = (srv.rt.as_ref(), srv.server.as_ref()) {
+            let wait = server.wait_for_shutdown();
+            let finished = rt.block_on(async { tokio::time::timeout(Duration::from_millis(50), wait).await.is_ok() });
+            if finished {
+                rep.violate("C18:server-future-terminated", json!({"mode": mode_tag}));
+            }
+        }
+        let mut c = None;
+        if let Err(e) = health_check(srv.addr, &mut c, true) {
+            rep.violate("C18:server-not-answering-after-faults", json!({"error": e, "mode": mode_tag, "when": "end of run"}));
+        }
+        let panics = log.count_kind("H_PANIC");
+        rep.count("deliberate_handler_panics", panics as u64);
+        rep.count("handler_entries", log.count_kind("H_ENTER") as u64);
+        if let Some(Err(e)) = srv.close() {
+            rep.violate("C18:server-task-died", json!({"mode": mode_tag, "close_result": e}));
+        }
+    }
+    rep
+}
+
+/// The fault workload against the server at `addr`: `threads` client threads work
+/// through `faults`, two dedicated keep-alive connections carry health probes the
+/// whole time, and a fresh-connection health probe follows every 25 faults.
+pub fn drive(rep: &mut Report, addr: SocketAddr, faults: Vec<Fault>, threads: usize, mode_tag: &'static str, seed: u64) {
         let total = faults.len();
         let queue = Arc::new(Mutex::new(faults));
-        let shared = Arc::new(Shared { addr: srv.addr, stop: AtomicBool::new(false), health_ok: AtomicU64::new(0) });
+        let shared = Arc::new(Shared { addr, stop: AtomicBool::new(false), health_ok: AtomicU64::new(0) });
         // dedicated health connections
         let health_threads: Vec<_> = (0..2)
             .map(|hi| {
@@ -398,7 +431,7 @@ pub fn run(seed: u64, w: &Work) -> Report {
                 })
             })
             .collect();
-        let workers: Vec<_> = (0..w.threads)
+        let workers: Vec<_> = (0..threads)
             .map(|t| {
                 let q = queue.clone();
                 let sh = shared.clone();
@@ -435,26 +468,154 @@ pub fn run(seed: u64, w: &Work) -> Report {
         }
         rep.count("faulty_connections", total as u64);
         rep.count("health_probes_on_dedicated_connections_ok", shared.health_ok.load(Ordering::Relaxed));
-        // the server future must still be pending
-        if let (Some(rt), Some(server)) = (srv.rt.as_ref(), srv.server.as_ref()) {
-            let wait = server.wait_for_shutdown();
-            let finished = rt.block_on(async { tokio::time::timeout(Duration::from_millis(50), wait).await.is_ok() });
-            if finished {
-                rep.violate("C18:server-future-terminated", json!({"mode": mode_tag}));
+}
+
+/// Requests that announce a body size no server could buffer (Content-Length from
+/// 2^31 up to 2^64-1 and beyond, or a huge chunk size) and then send little or
+/// nothing: whatever the endpoint's extractor does with the announcement, the
+/// server must stay up and must not answer 2xx.
+pub fn announced_size_faults(rng: &mut Rng, n: usize) -> Vec<Fault> {
+    let sizes: &[&str] = &[
+        "2147483647", "2147483648", "4294967295", "4294967296", "1099511627776", "140737488355328", "1152921504606846976",
+        "4611686018427387904", "9223372036854775807", "9223372036854775808", "18446744073709551615",
+    ];
+    let eps: &[(&str, &str)] = &[
+        ("/json", "application/json"),
+        ("/form", "application/x-www-form-urlencoded"),
+        ("/raw", "application/octet-stream"),
+        ("/stream", "application/octet-stream"),
+        ("/multi", "multipart/form-data; boundary=XyZ"),
+    ];
+    let mut out = vec![];
+    for i in 0..n {
+        let size = sizes[i % sizes.len()];
+        let (path, ct) = eps[(i / sizes.len()) % eps.len()];
+        let chunked = rng.chance(1, 5);
+        let mut b = format!("POST {path} HTTP/1.1\r\nhost: a\r\ncontent-type: {ct}\r\nx-vmon-uid: 0\r\n").into_bytes();
+        if chunked {
+            let hex = format!("{:x}", size.parse::<u128>().unwrap_or(u128::MAX).min(u64::MAX as u128));
+            b.extend_from_slice(format!("transfer-encoding: chunked\r\n\r\n{hex}\r\n").as_bytes());
+        } else {
+            b.extend_from_slice(format!("content-length: {size}\r\n\r\n").as_bytes());
+        }
+        let k = match rng.below(3) {
+            0 => 0,
+            1 => 1 + rng.usize(64),
+            _ => 5000 + rng.usize(4000),
+        };
+        b.extend(std::iter::repeat(b'{').take(k));
+        let mut f = fault(&format!("announced-size|{}{}|{}", if chunked { "chunk-" } else { "" }, size.len(), path), b);
+        f.no_2xx_after = Some(0);
+        f.end = *rng.pick(&[End::Fin, End::Hold, End::Rst]);
+        out.push(f);
+    }
+    out
+}
+
+/// HTTP/2 faults, driven with the h2 crate's client so that single frames can be
+/// placed: request bodies larger than the endpoint's limit whose stream is reset
+/// (RST_STREAM with various reasons) or whose connection is dropped while the
+/// server is still draining them; bodies cut short before END_STREAM; headers
+/// without any body frame.  Only liveness is judged: after every group a fresh
+/// HTTP/1.1 health probe must be answered.
+pub fn h2_faults(rep: &mut Report, addr: SocketAddr, n: usize, seed: u64, mode_tag: &str, limit: usize) {
+    let rt = match tokio::runtime::Builder::new_multi_thread().worker_threads(2).enable_all().build() {
+        Ok(r) => r,
+        Err(e) => {
+            rep.inconclusive(&format!("h2 fault client runtime: {e}"));
+            return;
+        }
+    };
+    let mut sent = 0u64;
+    for i in 0..n {
+        let mut rng = Rng::derive(seed, "c18-h2", if mode_tag == "det" { 0 } else { 1 }, i as u64);
+        let path = *rng.pick(&["/raw", "/json", "/stream", "/form"]);
+        let over = rng.chance(3, 4);
+        let total = if over { limit + 1 + rng.usize(3 * limit) } else { 1 + rng.usize(limit.max(2) - 1) };
+        let how = *rng.pick(&["rst-internal", "rst-protocol", "rst-cancel", "rst-no-error", "drop-connection", "end-stream-short-of-content-length"]);
+        let streams = if rng.chance(1, 4) { 2 + rng.usize(6) } else { 1 };
+        let pause = Duration::from_millis(rng.below(60));
+        let class = format!("h2|{}|{how}|streams{}|{path}|{mode_tag}", if over { "over-limit" } else { "under-limit" }, streams.min(3));
+        let r: Result<(), String> = rt.block_on(async {
+            let tcp = tokio::time::timeout(Duration::from_secs(10), tokio::net::TcpStream::connect(addr))
+                .await
+                .map_err(|_| "connect timeout".to_string())?
+                .map_err(|e| format!("connect: {e}"))?;
+            let (client, conn) = tokio::time::timeout(Duration::from_secs(10), h2::client::handshake(tcp))
+                .await
+                .map_err(|_| "h2 handshake timeout".to_string())?
+                .map_err(|e| format!("h2 handshake: {e}"))?;
+            let conn_task = tokio::spawn(async move {
+                let _ = conn.await;
+            });
+            let mut client = match tokio::time::timeout(Duration::from_secs(10), client.ready()).await {
+                Ok(Ok(c)) => c,
+                _ => return Err("h2 client not ready".into()),
+            };
+            let mut open = vec![];
+            for _ in 0..streams {
+                let mut b = http::Request::builder()
+                    .method("POST")
+                    .uri(format!("http://{addr}{path}"))
+                    .header("content-type", "application/octet-stream")
+                    .header("x-vmon-uid", "0");
+                if how == "end-stream-short-of-content-length" {
+                    b = b.header("content-length", (total + 100).to_string());
+                }
+                let req = b.body(()).map_err(|e| e.to_string())?;
+                let (resp, mut send) = client.send_request(req, false).map_err(|e| format!("send_request: {e}"))?;
+                // within the initial flow-control window, so everything goes out at once
+                let data = bytes::Bytes::from(vec![b'z'; total.min(60_000)]);
+                let _ = send.send_data(data, how == "end-stream-short-of-content-length");
+                open.push((resp, send));
+            }
+            // let the server read (and, over the limit, start draining) before the fault
+            tokio::time::sleep(pause).await;
+            for (_, send) in open.iter_mut() {
+                match how {
+                    "rst-internal" => send.send_reset(h2::Reason::INTERNAL_ERROR),
+                    "rst-protocol" => send.send_reset(h2::Reason::PROTOCOL_ERROR),
+                    "rst-cancel" => send.send_reset(h2::Reason::CANCEL),
+                    "rst-no-error" => send.send_reset(h2::Reason::NO_ERROR),
+                    _ => {}
+                }
+            }
+            // give the frames time to leave, then drop everything (closes the connection)
+            tokio::time::sleep(Duration::from_millis(20)).await;
+            for (resp, _) in open {
+                let _ = tokio::time::timeout(Duration::from_millis(30), resp).await;
+            }
+            drop(client);
+            conn_task.abort();
+            Ok(())
+        });
+        match r {
+            Ok(()) => {
+                rep.eval(class);
+                sent += 1;
+            }
+            Err(e) => rep.inconclusive(&format!("h2 fault client: {}", e.chars().take(60).collect::<String>())),
+        }
+        if i % 6 == 5 || i + 1 == n {
+            let mut c = None;
+            match health_check(addr, &mut c, true) {
+                Ok(()) => rep.count("fresh_connection_health_probes_ok", 1),
+                Err(e) => {
+                    // bounded progress: a second, patient probe decides
+                    std::thread::sleep(Duration::from_secs(2));
+                    let mut c = None;
+                    if let Err(e2) = health_check(addr, &mut c, true) {
+                        rep.violate(
+                            "C18:server-not-answering-after-faults",
+                            json!({"error": e, "second_probe": e2, "after_fault": {"class": "h2 stream faults", "index": i}, "mode": mode_tag}),
+                        );
+                        return;
+                    }
+                }
             }
         }
-        let mut c = None;
-        if let Err(e) = health_check(srv.addr, &mut c, true) {
-            rep.violate("C18:server-not-answering-after-faults", json!({"error": e, "mode": mode_tag, "when": "end of run"}));
-        }
-        let panics = log.count_kind("H_PANIC");
-        rep.count("deliberate_handler_panics", panics as u64);
-        rep.count("handler_entries", log.count_kind("H_ENTER") as u64);
-        if let Some(Err(e)) = srv.close() {
-            rep.violate("C18:server-task-died", json!({"mode": mode_tag, "close_result": e}));
-        }
     }
-    rep
+    rep.count("h2_faulty_connections", sent);
 }
 
 fn run_fault(rep: &mut Report, addr: SocketAddr, f: &Fault, mode_tag: &str, seed: u64) {
